@@ -36,11 +36,18 @@ type Signer struct {
 	Rules     []Rule `json:"rules,omitempty"`
 }
 
+// Mut is a change a contract makes to its own on-chain state in the frame reached by a hop, before it goes on.
+type Mut struct {
+	Op     string `json:"op"`               // update | destroy
+	Groups []int  `json:"groups,omitempty"` // update: the manifest groups after the update
+}
+
 // Hop is one step of the call chain.
 type Hop struct {
-	Kind   int `json:"kind"`   // HopCall | HopDyn | HopNative
-	Target int `json:"target"` // contract index 0..3 (call, native) or dynamic script variant 0..1
-	Flags  int `json:"flags"`  // requested call flags (call, dyn); native hops always run with All
+	Kind   int  `json:"kind"`          // HopCall | HopDyn | HopNative | HopSelf
+	Target int  `json:"target"`        // contract index 0..3 (call, native) or dynamic script variant 0..1 (dyn); unused for self
+	Flags  int  `json:"flags"`         // requested call flags (call, dyn, self); native hops always run with All
+	Mut    *Mut `json:"mut,omitempty"` // call / native hops only
 }
 
 // Acct is the checked account.
@@ -72,54 +79,109 @@ func (p pos) byEntry() bool { return p.level <= 1 }
 
 // positions derives the context of every chain position: index 0 is the entry script, index i the context
 // reached by hop i; the returned leaf is the context in which the witness is finally checked.
-func (w *world) positions(c Case, entry util.Uint160) (chain []pos, leaf pos, err error) {
+//
+// groups is the harness' own bookkeeping of the manifest groups every contract has at the moment of the check, i.e.
+// after the updates / destructions performed on the way down.
+func (w *world) positions(c Case, entry util.Uint160) ([]pos, pos, map[util.Uint160]uint8, error) {
+	bad := func(f string, a ...any) ([]pos, pos, map[util.Uint160]uint8, error) {
+		return nil, pos{}, nil, fmt.Errorf(f, a...)
+	}
+	groups := map[util.Uint160]uint8{}
+	for h, m := range w.groupsOf {
+		groups[h] = m
+	}
+	destroyed := map[util.Uint160]bool{}
+	anyDestroyed := false
+	var chain []pos
 	p := pos{cur: entry, flags: callflag.All}
 	chain = append(chain, p)
 	for i, h := range c.Hops {
 		var n pos
+		if (h.Kind == HopCall || h.Kind == HopNative) && h.Target >= 0 && h.Target <= 3 && destroyed[w.contracts[h.Target]] {
+			return bad("hop %d: chain not executable (target was destroyed)", i)
+		}
+		if h.Kind == HopNative && anyDestroyed {
+			return bad("hop %d: native hops after a destruction are outside the domain", i)
+		}
+		if h.Mut != nil && h.Kind != HopCall && h.Kind != HopNative {
+			return bad("hop %d: only contract frames can update / destroy themselves", i)
+		}
 		switch h.Kind {
+		case HopSelf:
+			if !p.flags.Has(callflag.AllowCall) {
+				return bad("hop %d: chain not executable (System.Runtime.LoadScript needs AllowCall)", i)
+			}
+			// The entry script's bytes loaded as a dynamic script: same script hash as the entry script, but a frame of
+			// its own, one level deeper, read-only.
+			n = pos{cur: entry, calling: p.cur, hasCalling: true, level: p.level + 1,
+				flags: p.flags & callflag.CallFlag(h.Flags) & callflag.ReadOnly}
 		case HopCall:
 			if h.Target < 0 || h.Target > 3 {
-				return nil, pos{}, fmt.Errorf("hop %d: bad target", i)
+				return bad("hop %d: bad target", i)
 			}
 			if !p.flags.Has(callflag.ReadStates | callflag.AllowCall) {
-				return nil, pos{}, fmt.Errorf("hop %d: chain not executable (System.Contract.Call needs ReadStates|AllowCall)", i)
+				return bad("hop %d: chain not executable (System.Contract.Call needs ReadStates|AllowCall)", i)
 			}
 			n = pos{cur: w.contracts[h.Target], calling: p.cur, hasCalling: true, level: p.level + 1, flags: p.flags & callflag.CallFlag(h.Flags)}
 		case HopDyn:
 			if h.Target < 0 || h.Target > 1 {
-				return nil, pos{}, fmt.Errorf("hop %d: bad target", i)
+				return bad("hop %d: bad target", i)
 			}
 			if !p.flags.Has(callflag.AllowCall) {
-				return nil, pos{}, fmt.Errorf("hop %d: chain not executable (System.Runtime.LoadScript needs AllowCall)", i)
+				return bad("hop %d: chain not executable (System.Runtime.LoadScript needs AllowCall)", i)
 			}
 			// A dynamic script is limited to read-only actions irrespective of the requested flags.
 			n = pos{cur: w.dynHash[h.Target], calling: p.cur, hasCalling: true, level: p.level + 1,
 				flags: p.flags & callflag.CallFlag(h.Flags) & callflag.ReadOnly}
 		case HopNative:
 			if h.Target < 0 || h.Target > 3 {
-				return nil, pos{}, fmt.Errorf("hop %d: bad target", i)
+				return bad("hop %d: bad target", i)
 			}
 			if p.flags != callflag.All {
-				return nil, pos{}, fmt.Errorf("hop %d: chain not executable (GAS.transfer + callback need All)", i)
+				return bad("hop %d: chain not executable (GAS.transfer + callback need All)", i)
 			}
 			// The native contract is a contract of its own: it is called by the previous context and it calls the
 			// payment callback.
 			n = pos{cur: w.contracts[h.Target], calling: nativehashes.GasToken, hasCalling: true, level: p.level + 2, flags: callflag.All}
 		default:
-			return nil, pos{}, fmt.Errorf("hop %d: bad kind", i)
+			return bad("hop %d: bad kind", i)
+		}
+		if h.Mut != nil {
+			if n.flags != callflag.All {
+				return bad("hop %d: chain not executable (ContractManagement.update / destroy need All)", i)
+			}
+			switch h.Mut.Op {
+			case MutUpdate:
+				var m uint8
+				for _, g := range h.Mut.Groups {
+					if g < 0 || g >= NGroups {
+						return bad("hop %d: bad group", i)
+					}
+					m |= 1 << g
+				}
+				groups[n.cur] = m
+			case MutDestroy:
+				delete(groups, n.cur) // a destroyed contract has no manifest, hence no groups
+				destroyed[n.cur] = true
+				anyDestroyed = true
+			default:
+				return bad("hop %d: bad mutation %q", i, h.Mut.Op)
+			}
 		}
 		chain = append(chain, n)
 		p = n
 	}
-	leaf = p
+	leaf := p
 	if c.Leaf == LeafGas {
 		if p.flags != callflag.All {
-			return nil, pos{}, fmt.Errorf("leaf: chain not executable (GAS.transfer needs All)")
+			return bad("leaf: chain not executable (GAS.transfer needs All)")
+		}
+		if anyDestroyed {
+			return bad("leaf: native leaf after a destruction is outside the domain")
 		}
 		leaf = pos{cur: nativehashes.GasToken, calling: p.cur, hasCalling: true, level: p.level + 1, flags: callflag.All}
 	}
-	return chain, leaf, nil
+	return chain, leaf, groups, nil
 }
 
 // ---- the specification ------------------------------------------------------------------------------
@@ -147,12 +209,12 @@ type env struct {
 	resolve        func(ref int) util.Uint160
 }
 
-func (w *world) envOf(p pos, entry util.Uint160) env {
+func (w *world) envOf(p pos, entry util.Uint160, groups map[util.Uint160]uint8) env {
 	e := env{cur: p.cur, calling: p.calling, hasCalling: p.hasCalling, byEntry: p.byEntry(),
 		resolve: func(r int) util.Uint160 { return w.resolve(r, entry) }}
-	e.curGroups = w.groupsOf[p.cur]
+	e.curGroups = groups[p.cur]
 	if p.hasCalling {
-		e.callingGroups = w.groupsOf[p.calling]
+		e.callingGroups = groups[p.calling]
 	}
 	if !p.flags.Has(callflag.ReadStates) {
 		e.curGroupsErr, e.callingGrpsErr = true, true
